@@ -1,11 +1,12 @@
 """C07 - reliability-layer property judged on recorded executions (see conn_judge / specs/Trace_Conn.tla)."""
-from props import conn_judge as J
+from props import conn_judge as J, conn_model as CM
 
 
 def run(ctx):
     ctx.level = "model_checking"
     ctx.rule = ("events of recorded executions of two real endpoints judged by TLC against Trace_Conn; distinct = recv + build events; "
                 "non-trivial = every recv/build event (each is checked against the full clause set)")
+    CM.c07_models(ctx)
     J.run_scenarios(ctx, "C07", scenarios(ctx))
 
 
